@@ -761,6 +761,15 @@ def main():
         if not os.path.exists(core.DRIVER):
             raise Infra("model driver missing after build")
         fn = prop_fn(pid)
+        # change-directed search aid: constants of the current source that the snapshot of the pinned tree lacks
+        import hints, gens
+        try:
+            h = hints.Hints(hints.harvest(core.REPO))
+        except Exception:  # noqa: BLE001
+            h = None
+        gens.HINTS = h if h else None
+        if h:
+            ctx.extra["change_directed_hints"] = h.summary()
         import reach
         reach_on = reach.start(core.REPO)
         try:
